@@ -25,7 +25,8 @@ FUNCTIONS = ["HybridFrontend." + m for m in ["_do_call", "_hybrid_call", "_appro
                                              "is_false", "satisfiable", "unsat_core", "_add", "combine", "merge", "split", "_copy", "_blank_copy", "simplify", "downsize",
                                              "finalize"]] + \
             ["ReplacementFrontend." + m for m in ["eval", "batch_eval", "max", "min", "solution", "is_true", "is_false", "satisfiable", "_add", "add_replacement",
-                                                  "_replacement", "_replace_list", "_copy", "_blank_copy", "downsize", "remove_replacements", "clear_replacements"]]
+                                                  "_replacement", "_replace_list", "_copy", "_blank_copy", "downsize", "remove_replacements", "clear_replacements"]] + \
+            ["ConcreteHandlerMixin / ConstraintDeduplicatorMixin / EagerResolutionMixin / ConstraintFilterMixin / SimplifySkipperMixin of the SolverReplacement and SolverHybrid stacks (vf/contracts/layers.py, shared with C11)"]
 TRUSTED = _rtc.RTC_TRUSTED + ["contract of claripy.replace_dict (C08): the result agrees with the original wherever the dictionary's equalities hold",
                               "contract of the actual frontend (records constraints, answers queries; its own correctness is C11)"]
 ASSUMPTIONS = ["ReplacementFrontend is parametric in the constraint language: the proof is over a universe of 4 assignments and 2-bit values",
@@ -40,5 +41,8 @@ def tasks(tier, seed=0):
     out = [task(M, "ob_replacement", f"replacement.{m}/equiv+inv", ["C13"] + (["C14"] if "copy" in m else []), method=m, tier=tier) for m in replfront.METHODS]
     out += [task("vf.contracts.hybrid", "ob_hybrid", f"hybrid.{m}/dispatch+inv", ["C13"] + (["C15"] if m.split("[")[0] in ("combine", "merge", "split") else []),
                  method=m, tier=tier) for m in hybrid.METHODS]
+    # the thin mixins in the stacks of SolverReplacement / SolverHybrid (the same obligations as under C11)
+    from vf.contracts import layers
+    out += layers.all_tasks(tier, only=("ConcreteHandlerMixin", "ConstraintDeduplicatorMixin", "EagerResolutionMixin", "ConstraintFilterMixin", "SimplifySkipperMixin"))
     out.append(task("vf.contracts.canaries", "ob_canaries", "harness.canaries/wrong-methods-are-noticed", ["C03", "C11", "C12", "C13", "C15"], tier=tier))
     return out + _rtc.rtc_tasks("C13", tier, seed)
